@@ -67,12 +67,17 @@ pub struct Body {
 	/// call clear_poison on the target itself inside the section (the holder "repairs" the data)
 	#[serde(default)]
 	pub clear: bool,
+	/// inside the section, ask for the thread's key again (twice); if one is handed out although the
+	/// section's own key is alive, use it for a blocking acquisition of the same target
+	#[serde(default)]
+	pub rekey: bool,
 }
 impl Body {
-	pub const NONE: Body = Body { touch: false, yield_mid: false, panic: false, clear: false };
-	pub const TOUCH: Body = Body { touch: true, yield_mid: true, panic: false, clear: false };
-	pub const PANIC: Body = Body { touch: true, yield_mid: false, panic: true, clear: false };
-	pub const CLEAR: Body = Body { touch: true, yield_mid: false, panic: false, clear: true };
+	pub const NONE: Body = Body { touch: false, yield_mid: false, panic: false, clear: false, rekey: false };
+	pub const TOUCH: Body = Body { touch: true, yield_mid: true, panic: false, clear: false, rekey: false };
+	pub const PANIC: Body = Body { touch: true, yield_mid: false, panic: true, clear: false, rekey: false };
+	pub const CLEAR: Body = Body { touch: true, yield_mid: false, panic: false, clear: true, rekey: false };
+	pub const REKEY: Body = Body { touch: true, yield_mid: false, panic: false, clear: false, rekey: true };
 }
 
 #[derive(Clone, Debug, PartialEq, Eq, Hash, PartialOrd, Ord, Serialize, Deserialize)]
@@ -196,6 +201,23 @@ fn run_section(t: &Target<'_>, write: bool, body: Body, w: &str, slots: Vec<Slot
 					rt::violation("C02", format!("changed-under-read|{}", rt::what_key(w)), format!("L{} changed from {} to {} inside a shared section of `{}`", s.leaf, reads[i], v, w));
 				}
 			}
+		}
+	}
+	if body.rekey {
+		let k2 = match ThreadKey::get() {
+			Some(k) => Some(k),
+			None => ThreadKey::get(),
+		};
+		if let Some(k2) = k2 {
+			rt::violation("C06", format!("second-key-in-section|{}", rt::what_key(w)), format!("inside the section of `{}` ThreadKey::get() handed out a second key", w));
+			// what a second key allows: the thread acquires while it holds (C03) and waits for itself (C01)
+			let saved = rt::end_call();
+			rt::begin_call(CallKind::Acquire, t.retrying, what(t, "lock (with a second key obtained inside the section)"));
+			let g2 = t.coll.lock(k2);
+			drop(g2);
+			rt::end_call();
+			rt::begin_call(saved.kind, saved.retrying, saved.what);
+			rt::set_call_kind(CallKind::Body);
 		}
 	}
 	if body.clear {
